@@ -1131,8 +1131,14 @@ impl DB {
             (wal_record, is_eof) = wal_reader.read_record()?;
         }
 
+        // A WAL whose tail holds an incomplete record (e.g. a torn write) cannot be appended to
+        let is_wal_tail_clean = wal_reader.is_at_clean_end().unwrap_or(false);
         let mut was_memtable_reused = false;
-        if self.options.reuse_log_files() && is_last_wal && num_compactions == 0 {
+        if self.options.reuse_log_files()
+            && is_last_wal
+            && num_compactions == 0
+            && is_wal_tail_clean
+        {
             log::info!("Reusing WAL file: {wal_path:?}.", wal_path = &wal_path);
             drop(wal_reader);
             if let Ok(wal_writer) =
